@@ -57,7 +57,7 @@ META = {
                 text=("LookupAgree/ChangeVisibleBoth/ChildIndicesExact/RefuseIdempotent are model-checked on the implementation-shaped key tree with a ghost "
                       "registration record; every history of <= 3 (thorough: 4, sampled 10) API operations over 1-2 accounts, 2 slots, offsets {0,1,32,256,2^32}, "
                       "2 type ids, 2 names, 2 values is replayed on the real tracer and every query is compared after the last operation of every prefix."),
-                note="Trusted: TLC. Conflicting registrations (a second layout for a name, a second name for a path) are part of the histories: the model says which are refused and that a refusal changes nothing. Exhaustive only within the stated constants; the thorough tier adds sampled histories of length 10."),
+                note="Trusted: TLC. Conflicting registrations (a second layout for a name, a second name for a path) are part of the histories: the model says which are refused and that a refusal changes nothing. Exhaustive only within the stated constants (two configurations: two ordinary types, and one of them the zero type id); the thorough tier adds sampled histories of length 10. Node types (branch -> data on the first change) are modelled and replayed but judged as model drift only."),
     "C19": dict(fn=calltracer.check, engine="calltracer", design_ref="3.4, 6 C19", replay=".build/verifh calltracer -one {path}",
                 technique="TLC exhaustive model checking of CallTracer.tla + replay of every TLC-generated callback stream on the real callTracer and flatCallTracer",
                 text=("NoCrash/FiledUnderIssuer/OwnResult/FilterExact/FlatDesign are model-checked on the implementation-shaped bookkeeping (callstack, join-point "
@@ -78,7 +78,7 @@ META = {
                       "be one constant non-zero fee for all opcodes and forks (choose-once, not the number 800); memory-argument and operand vectors that are "
                       "malformed must halt the frame with all gas consumed, well-formed ones must leave memory size unchanged; every opcode at every stack height 0..8 "
                       "(below its arity: a stack underflow like any instruction); a well-formed operand on which the instruction halts the frame is a mismatch of its own."),
-                note="Trusted: TLC; POP costs 2 gas (used to derive the fee). Reads reaching beyond existing memory may fail or read zeros; the property fixes neither."),
+                note="Trusted: TLC; POP costs 2 gas (used to derive the fee). Every operand slot is read after the instruction, so access-list side effects show in the fee. Reads reaching beyond existing memory may fail or read zeros; the property fixes neither."),
     "C14": dict(fn=precomp.check, engine="precompile", design_ref="3.5, 6 C14", replay=".build/verifh precompile -one {path}",
                 technique="TLC enumeration of Precompile.tla payload vectors + execution of every vector on the real precompiles with recording host callbacks",
                 text=("The ABI decode of the three Artela precompiles is written in TLA+ over payload lengths, head and length words (with 2^63..2^256-1 classes); "
@@ -130,7 +130,7 @@ META = {
                       "instances are forced on real EVMs (a probe opcode enabled only by one instance's extra EIP must stay invalid in the other), Cancel is injected at every "
                       "position, results must equal solo results, frames must start with empty stacks, bookkeeping must be closed; free-running rounds add real parallelism; "
                       "for the shared context-writer object, attaching the caller and running the precompile are separate model steps replayed through a second gate inside EVM.Call."),
-                note="Trusted: TLC; the gating tracer. Absence of data races is observed with `go build -race` in the thorough tier on the schedules that ran, not proved."),
+                note="Trusted: TLC; the gating tracer. Absence of data races is observed with `go build -race` in the thorough tier on the schedules that ran, not proved. Instances with equal extra EIPs are built from one shared Config.ExtraEips slice, which must come back unmodified."),
     "C06": dict(fn=jpgas.check, engine="jpgas", design_ref="6 C06", replay="see the cmd field of {path}",
                 technique="TLC enumeration of JPGas.tla vectors executed with real WASM Aspects + TLC trace validation of the recorded gas figures (JPGasTrace.tla)",
                 text=("For every vector the recorded gas at each Aspect's entry and exit, at the callee's first and last instruction and at the caller after the CALL must satisfy: "
